@@ -147,6 +147,9 @@ class Lib:
     def call_ext(self, ex, st, name, args, kwargs, n):
         name = self.canon(name)
         h = self.ext.get(name)
+        hk = self.hooks.get('pre_call')
+        if hk:
+            hk(ex, st, name, args, kwargs, n)
         if h is not None:
             return h(ex, st, args, kwargs, n)
         # a function of the module under analysis that is not under contract
@@ -322,11 +325,21 @@ class Lib:
             nr, nc = o.f['nrows'], o.f['ncols']
             c = self.mul(ex, st, nr, nc)
         r = self.new_matrix(ex, st, c, 1, o.f['tc'], site=n.lineno)
-        if isinstance(idx, tuple) and idx and idx[0] == 'slice':
-            lo = idx[1]
+        if isinstance(idx, tuple) and idx and idx[0] == 'slice' and \
+                idx[3] is None:
+            lo, hi = idx[1], idx[2]
             cl, kl = const_of(lo) if lo is not None else (True, 0)
-            st.heap[r.oid].f['slice_lo'] = kl if cl else None
-            st.heap[r.oid].f['slice_src'] = ref.oid
+            rf = st.heap[r.oid].f
+            rf['slice_lo'] = kl if cl else None
+            rf['slice_src'] = ref.oid
+            try:
+                rf['slice_lo_t'] = ex.num(st, lo)[1] if lo is not None \
+                    else z3.IntVal(0)
+                rf['slice_hi_t'] = ex.num(st, hi)[1] if hi is not None \
+                    else ex.num(st, self.mul(ex, st, o.f['nrows'],
+                                             o.f['ncols']))[1]
+            except Exception:
+                rf['slice_lo_t'] = rf['slice_hi_t'] = None
         return r
 
     def mul(self, ex, st, a, b):
@@ -350,6 +363,18 @@ class Lib:
         if o.kind == 'matrix':
             self.on_mutate(ex, st, base, 'indexed assignment', s)
             o.f['sym'] = z3.IntVal(0)
+            full = isinstance(idx, tuple) and idx and idx[0] == 'slice' \
+                and idx[1:] == (None, None, None)
+            if full and isinstance(v, Ref) and st.heap[v.oid].kind == \
+                    'matrix' and st.heap[v.oid].f.get('slice_src') is not \
+                    None:
+                vf = st.heap[v.oid].f
+                o.f['content_src'] = (vf['slice_src'], vf.get('slice_lo_t'),
+                                      vf.get('slice_hi_t'))
+                h = self.hooks.get('block_copy')
+                if h:
+                    h(ex, st, base, vf['slice_src'], vf.get('slice_lo_t'),
+                      vf.get('slice_hi_t'), s)
             return
         hk = self.hooks.get('instance_setitem')
         if hk and o.kind == 'instance':
@@ -407,6 +432,29 @@ class Lib:
             return e[1]
         if e[0] == 'map':
             return e[1](ex, st, k)
+        if e[0] == 'objproto':
+            proto, kf = e[1], e[2]
+            if isinstance(k, int):
+                k = z3.IntVal(k)
+            key = ('listelem', ref.oid, str(z3.simplify(k)))
+            hit = st.ghost.get(key)
+            if hit is not None and hit.oid in st.heap:
+                return hit
+            po = st.heap.get(proto.oid)
+            if po is None or po.kind != 'matrix':
+                return Unknown('list element')
+
+            def sub(v):
+                if isinstance(v, I):
+                    return I(z3.substitute(v.t, (kf, k)))
+                return v
+            m = self.new_matrix(ex, st, sub(po.f['nrows']),
+                                sub(po.f['ncols']), po.f['tc'],
+                                owner=po.meta.get('owner', 'FRESH'),
+                                symval=po.f.get('sym'))
+            st.heap[m.oid].f['elem_of'] = (ref.oid, k)
+            st.ghost[key] = m
+            return m
         return Unknown('list element')
 
     def symlist_item(self, ex, st, ref, idx, n):
